@@ -89,6 +89,12 @@ def zero_leaves(fl, rf, loop):
 
 
 def run(ix, R):
+    _run(ix, R)
+    from rules.common import memo_obligation
+    memo_obligation(ix, R, 'M.memo', ['taurex/contributions/', 'taurex/model/simplemodel.py'], 'the contributions and the model driver')
+
+
+def _run(ix, R):
     base = ix.cls(CD + 'contribution.py::Contribution')
     # ---- 1. contribute implementations only accumulate
     impls = ix.implementations(base, 'contribute')
